@@ -1,9 +1,11 @@
 package g_auth
 
 import (
+	"fmt"
 	"log/slog"
 	"net/http"
 	"os"
+	"strings"
 	"testing"
 
 	"github.com/Query-farm/vgi-rpc-go/vgirpc"
@@ -60,4 +62,46 @@ func has(list []string, s string) bool {
 		}
 	}
 	return false
+}
+
+// parseChallenge is the harness's own reader of a WWW-Authenticate challenge:
+// scheme, then comma-separated name="quoted value" auth-params.
+func parseChallenge(h string) (scheme string, params map[string]string) {
+	params = map[string]string{}
+	sp := strings.IndexByte(h, ' ')
+	if sp < 0 {
+		return h, params
+	}
+	scheme, rest := h[:sp], h[sp+1:]
+	for {
+		rest = strings.TrimLeft(rest, " ,")
+		eq := strings.IndexByte(rest, '=')
+		if eq < 0 || eq+1 >= len(rest) || rest[eq+1] != '"' {
+			return scheme, params
+		}
+		name := rest[:eq]
+		rest = rest[eq+2:]
+		end := strings.IndexByte(rest, '"')
+		if end < 0 {
+			return scheme, params
+		}
+		params[name] = rest[:end]
+		rest = rest[end+1:]
+	}
+}
+
+// printable renders a response body for a message: binary (Arrow) bodies are
+// summarised, text is cut and kept ASCII so that reports stay valid UTF-8.
+func printable(b []byte, n int) string {
+	out := make([]byte, 0, n)
+	for _, ch := range b {
+		if len(out) >= n {
+			break
+		}
+		if ch < 0x20 || ch > 0x7e {
+			ch = '.'
+		}
+		out = append(out, ch)
+	}
+	return fmt.Sprintf("[%d bytes] %s", len(b), out)
 }
